@@ -102,7 +102,7 @@ AuthKeys ==
     /\ phase = "keys"
     /\ at' = at + 1
     /\ st' = IF dsst = "Secure"
-             THEN (IF w.link[at + 1] = "ds" /\ w.signed[at + 1]
+             THEN (IF w.link[at + 1] \in SecureLinks /\ w.signed[at + 1]
                       /\ ItemState(w, F, "KEY", at + 1, "dnskey") \in
                              (IF "keys-by-ds-only" \in AsIs /\ w.keys[at + 1] = 1 THEN {"genuine", "nosig"} ELSE {"genuine"})
                    THEN "Secure" ELSE "Bogus")
@@ -129,18 +129,19 @@ JudgeItem(x) ==
                      ELSE IF "ns-finds-cut" \in AsIs /\ NoSigsLeft(x) /\ FakeCut /\ st = "Secure" THEN "Insecure"
                      ELSE IF st = "Secure"
                           THEN (IF x # "inj" /\ w.signed[w.n] /\ ItemState(w, F, "ANS", 0, x) = "genuine"
+                                   /\ \A pr \in ProofOf(q, x) : ItemState(w, F, "ANS", 0, pr) = "genuine"
                                 THEN "Secure" ELSE "Bogus")
                           ELSE st]
     /\ Step /\ UNCHANGED <<w, q, F, phase, anchor, at, st, dsst, class, served>>
 
-AnswerItems == {"data", "inj"}
+AnswerItems == {"data", "cname", "inj"}
 
 Conclude ==
     /\ phase = "items" /\ (AnsDropped \/ DOMAIN verdict = Delivered)
     /\ class' = IF AnsDropped THEN "err"
                 ELSE IF DOMAIN verdict \cap AnswerItems # {} THEN "answer"
                 ELSE IF st = "Insecure" THEN "neg-insecure"
-                ELSE IF st = "Secure" /\ q # "pos" /\ DOMAIN verdict # {}
+                ELSE IF st = "Secure" /\ q \in {"nodata", "nx"} /\ DOMAIN verdict # {}
                         /\ (\A x \in DOMAIN verdict : verdict[x] = "Secure")
                         /\ Needed(q) \subseteq DOMAIN verdict
                      THEN "neg-secure"
@@ -185,7 +186,7 @@ TypeOK ==
 
 \* Secure only with an unbroken chain from a configured anchor and only for the zone's own data
 C07_SecureImpliesChain ==
-    \A x \in DOMAIN verdict : verdict[x] = "Secure" => SecureOk(w, F, x)
+    \A x \in DOMAIN verdict : verdict[x] = "Secure" => SecureOk(w, F, q, x)
 
 \* Insecure only below a cut whose "no DS" / "only unsupported algorithms" is authenticated
 C07_InsecureOnlyProven ==
@@ -208,7 +209,7 @@ C07_NegSecure == class = "neg-secure" => NegSecureOk(w, F, q)
 C07_AD ==
     served.on =>
         /\ (served.ad => IF class = "answer"
-                         THEN \A x \in served.answered : SecureOk(w, F, x)
+                         THEN \A x \in served.answered : SecureOk(w, F, q, x)
                          ELSE NegSecureOk(w, F, q))
         /\ (served.sum = "Bogus" /\ ~served.cd => served.rcode = "SERVFAIL" /\ served.answered = {})
         /\ (\A x \in served.answered : verdict[x] = "Bogus" => served.cd)
